@@ -5,14 +5,25 @@
 (* actions [op, hash, fee | id, amt | who, id, choice | dt (half-days)].        *)
 EXTENDS DisputeSM_MC, Json
 CONSTANT D
-VARIABLE hist
-svars == <<vars, hist>>
-SimInit == Init /\ hist = <<>>
+VARIABLES hist, nb, np
+svars == <<vars, hist, nb, np>>
+\* at most two begin-blocks in a row (keeps messages frequent in generated behaviours)
+SimInit == Init /\ hist = <<>> /\ nb = 0 /\ np = 0
+MsgEnabled == \/ \E h \in Hashes, f \in Fees : nextId <= MaxId /\ ProposeOk(ds, now, h, f)
+              \/ \E d \in ds, a \in Fees : AddFeeOk(d, now, a)
+              \/ \E v \in Voters, d \in ds : VoteOk(d, now) /\ v \notin DOMAIN CastOf(d.id)
+\* messages the model has DISABLED are replayed too (at most MaxProbes per behaviour): the model's table does not change,
+\* the real chain must reject them - if it accepts one, the property clauses of the trace spec see the effect
+MaxProbes == 4
+Probe(a) == np < MaxProbes /\ np' = np + 1 /\ nb' = 0 /\ UNCHANGED vars /\ hist' = Append(hist, a)
 SimNext ==
-  \/ \E h \in Hashes, f \in Fees : Propose(h, f) /\ hist' = Append(hist, [op |-> "Propose", hash |-> h, fee |-> f])
-  \/ \E d \in ds, a \in Fees : AddFee(d.id, a) /\ hist' = Append(hist, [op |-> "AddFee", id |-> d.id, amt |-> a])
-  \/ \E v \in Voters, d \in ds, c \in 1 .. 3 : Vote(v, d.id, c) /\ hist' = Append(hist, [op |-> "Vote", who |-> v, id |-> d.id, choice |-> c])
-  \/ \E dt \in Gaps : Begin(dt) /\ hist' = Append(hist, [op |-> "Begin", dt |-> dt])
+  \/ np' = np /\ nb' = 0 /\ \E h \in Hashes, f \in Fees : Propose(h, f) /\ hist' = Append(hist, [op |-> "Propose", hash |-> h, fee |-> f])
+  \/ np' = np /\ nb' = 0 /\ \E d \in ds, a \in Fees : AddFee(d.id, a) /\ hist' = Append(hist, [op |-> "AddFee", id |-> d.id, amt |-> a])
+  \/ np' = np /\ nb' = 0 /\ \E v \in Voters, d \in ds, c \in 1 .. 3 : Vote(v, d.id, c) /\ hist' = Append(hist, [op |-> "Vote", who |-> v, id |-> d.id, choice |-> c])
+  \/ np' = np /\ (nb < 2 \/ ~MsgEnabled) /\ nb' = nb + 1 /\ \E dt \in Gaps : Begin(dt) /\ hist' = Append(hist, [op |-> "Begin", dt |-> dt])
+  \/ \E h \in Hashes, f \in Fees : ~ProposeOk(ds, now, h, f) /\ Probe([op |-> "Propose", hash |-> h, fee |-> f])
+  \/ \E d \in ds, a \in Fees : ~AddFeeOk(d, now, a) /\ Probe([op |-> "AddFee", id |-> d.id, amt |-> a])
+  \/ \E v \in Voters, d \in ds, c \in 1 .. 3 : ~(VoteOk(d, now) /\ v \notin DOMAIN CastOf(d.id)) /\ Probe([op |-> "Vote", who |-> v, id |-> d.id, choice |-> c])
 SimSpec == SimInit /\ [][SimNext]_svars
-Emit == Len(hist) # D \/ PrintT(<<"CASE", ToJson(hist)>>)
+Emit == Len(hist) \notin {D \div 2, D} \/ PrintT(<<"CASE", ToJson(hist)>>)
 =============================================================================
